@@ -312,3 +312,21 @@ Theorem C04_run_last_write_wins : forall e m0 st1 objs pads ops sid addr bs,
   slice (mem (w_dst (st_w (final e st1 ops))) sid) addr (zlen bs) = Ok bs.
 Proof. exact run_last_write_wins. Qed.
 Print Assumptions C04_run_last_write_wins.
+
+(* [T27] history level, for every program of the interpreter, pointer slots: the words a pointer
+   setter stored for table object [ht] at slot [q], then any program none of whose ops touches
+   the slot word or its landing pads; at the end Segment.readPtr at [q] returns the handle of
+   [ht] (the tables only grow along the run, so [ht] and the pads are still table entries) *)
+Theorem C04_run_last_pointer_wins : forall e st1 objs pads ops q ht raw oldlen ps strict rl depth p rl',
+  cfg_strict (e_cfgs e) = true ->
+  sinv st1 objs pads -> spool st1 -> sub_prog ops = true -> dst_run e st1 ops -> Forall seg_bound (bstates e st1 ops) ->
+  placed (bm_data (w_dst (st_w st1))) (fst q) (snd q) (p_seg ht) (obj_start ht) raw oldlen ps ->
+  In ht objs -> incl ps pads -> snd q mod 8 = 0 ->
+  raw_of ht = Ok raw -> (p_kind ht = KStruct -> os_isZero (p_size ht) = false) ->
+  Forall (fun R : Z -> Z -> Prop => (forall k, snd q <= k < snd q + 8 -> ~ R (fst q) k) /\
+            (forall r, In r ps -> forall k, r_start r <= k < r_start r + r_size r -> ~ R (r_seg r) k)) (touches e st1 ops) ->
+  let m' := w_dst (st_w (final e st1 ops)) in
+  readPtr strict (bm_data m') rl (fst q) (nth (Z.to_nat (fst q)) (bm_data m') []) (snd q) depth = (Ok p, rl') ->
+  p = handle_of ht depth.
+Proof. exact run_last_pointer_wins. Qed.
+Print Assumptions C04_run_last_pointer_wins.
